@@ -317,7 +317,10 @@ func RegisterSV(ld *Loaded) {
 		p := fr.i.path
 		st := (*args[0].(*value)).(structure)
 		cs := p.ctxs[st[0].(int)]
-		if cs.polls > 0 && p.decide(p.ts.BvRel("bvslt", cs.k, p.ts.BV(uint64(cs.polls), 64))) {
+		if c, ok := st[3].(bool); ok && c {
+			return fr.mkError("context canceled")
+		}
+		if p.decide(p.ts.BvRel("bvsle", cs.k, p.ts.BV(uint64(cs.polls), 64))) {
 			return fr.mkError("context canceled")
 		}
 		return iface{}
